@@ -18,6 +18,17 @@ type Scope struct {
 	g      *Graph // graph the scope's tokens move in
 	live   int
 	via    *Flow // flow on which the parent token arrived
+	coh    *Cohort
+}
+
+// Cohort is one activation of an inclusive fork: the tokens that descend from it. It is used by
+// the "late" inclusive-join rule (fire when every token of the fork activation has either
+// arrived at the join or ended elsewhere), the latest moment the property allows; the default
+// "early" rule is BPMN's (fire as soon as no token can still reach an empty incoming flow).
+type Cohort struct {
+	parent *Cohort
+	live   int
+	joined bool
 }
 
 // Tok is a token waiting at a node.
@@ -25,6 +36,7 @@ type Tok struct {
 	At    *Node
 	Via   *Flow
 	Scope *Scope
+	Coh   *Cohort
 	group *[]*Tok // event-based gateway alternatives
 	// boundary bookkeeping for activities
 	Interrupted bool
@@ -40,6 +52,7 @@ type Model struct {
 	Errs     []string // expected error traces: "xor:<id>", "or:<id>"
 	Stuck    int
 	root     *Scope
+	Late     bool // inclusive joins fire at the latest moment the property allows
 	Requests map[string]int
 	After    map[string]int // how many times a token continued past each node (sub-processes, catch events)
 	Log      []string
@@ -64,7 +77,7 @@ func (m *Model) startScope(s *Scope) {
 	for _, n := range s.g.Nodes {
 		if n.Kind == Start && len(n.Defs) == 0 {
 			s.live++
-			m.leave(n, s, n.Out, nil)
+			m.leave(n, s, n.Out, nil, nil)
 		}
 	}
 }
@@ -96,7 +109,15 @@ func (m *Model) Listening() []string {
 	return out
 }
 
-func (m *Model) consume(s *Scope) {
+func (m *Model) consume(s *Scope, coh *Cohort) {
+	for c := coh; c != nil; c = c.parent {
+		c.live--
+		if c.live > 0 || c.joined {
+			break
+		}
+		// every token of this fork activation ended without joining: the unit it formed in
+		// the enclosing activation is gone too
+	}
 	s.live--
 	if s.live < 0 {
 		panic("model: negative token count")
@@ -104,7 +125,7 @@ func (m *Model) consume(s *Scope) {
 	if s.live == 0 && s.sub != nil {
 		// the sub-process activation is over: the parent's token continues
 		m.After[s.sub.ID]++
-		m.leave(s.sub, s.parent, m.trueFlows(s.sub.Out), nil)
+		m.leave(s.sub, s.parent, m.trueFlows(s.sub.Out), nil, s.coh)
 	}
 }
 
@@ -121,22 +142,25 @@ func (m *Model) trueFlows(out []*Flow) []*Flow {
 
 // leave moves one token of scope s out of node n along flows fs (0 flows: the token is
 // consumed). grp, if set, makes the new tokens alternatives of an event-based gateway.
-func (m *Model) leave(n *Node, s *Scope, fs []*Flow, grp *[]*Tok) {
+func (m *Model) leave(n *Node, s *Scope, fs []*Flow, grp *[]*Tok, coh *Cohort) {
 	if len(fs) == 0 {
-		m.consume(s)
+		m.consume(s, coh)
 		return
 	}
 	s.live += len(fs) - 1
+	if coh != nil {
+		coh.live += len(fs) - 1
+	}
 	for _, f := range fs {
-		m.arrive(f, s, grp)
+		m.arrive(f, s, grp, coh)
 	}
 }
 
-func (m *Model) arrive(f *Flow, s *Scope, grp *[]*Tok) {
+func (m *Model) arrive(f *Flow, s *Scope, grp *[]*Tok, coh *Cohort) {
 	n := f.Dst
 	switch n.Kind {
 	case Task:
-		t := &Tok{At: n, Via: f, Scope: s, Visit: m.Requests[n.ID]}
+		t := &Tok{At: n, Via: f, Scope: s, Coh: coh, Visit: m.Requests[n.ID]}
 		m.Requests[n.ID]++
 		m.Pending = append(m.Pending, t)
 	case End:
@@ -144,7 +168,7 @@ func (m *Model) arrive(f *Flow, s *Scope, grp *[]*Tok) {
 			// end events inside sub-processes are not observable from outside
 			m.Ended = append(m.Ended, n.ID)
 		}
-		m.consume(s)
+		m.consume(s, coh)
 	case XOR:
 		var take *Flow
 		for _, o := range n.Out {
@@ -164,17 +188,19 @@ func (m *Model) arrive(f *Flow, s *Scope, grp *[]*Tok) {
 			m.Stuck++ // the token stays at the gateway for ever
 			return
 		}
-		m.leave(n, s, []*Flow{take}, nil)
+		m.leave(n, s, []*Flow{take}, nil, coh)
 	case AND:
-		m.waiting = append(m.waiting, &Tok{At: n, Via: f, Scope: s})
+		m.waiting = append(m.waiting, &Tok{At: n, Via: f, Scope: s, Coh: coh})
 	case OR:
-		if len(n.In) > 1 {
-			m.waiting = append(m.waiting, &Tok{At: n, Via: f, Scope: s})
+		// a gateway with one incoming and one outgoing flow is a degenerate join: under the late
+		// rule it too may wait for the other tokens of the fork activation to end
+		if len(n.In) > 1 || (m.Late && coh != nil && len(n.Out) == 1) {
+			m.waiting = append(m.waiting, &Tok{At: n, Via: f, Scope: s, Coh: coh})
 		} else {
-			m.orFork(n, s)
+			m.orFork(n, s, coh)
 		}
 	case Sub:
-		inner := &Scope{parent: s, sub: n, g: n.Inner, via: f}
+		inner := &Scope{parent: s, sub: n, g: n.Inner, via: f, coh: coh}
 		t := &Tok{At: n, Via: f, Scope: s}
 		_ = t
 		hasStart := false
@@ -188,33 +214,33 @@ func (m *Model) arrive(f *Flow, s *Scope, grp *[]*Tok) {
 			// consumed at once does not complete the scope before all start events have fired
 			inner.live++
 			m.startScope(inner)
-			m.consume(inner)
+			m.consume(inner, nil)
 		} else {
 			// no start event: nothing runs inside (the engine reports an error); not generated
 			m.Errs = append(m.Errs, "sub-nostart:"+n.ID)
 			m.Stuck++
 		}
 	case Catch:
-		t := &Tok{At: n, Via: f, Scope: s, group: grp}
+		t := &Tok{At: n, Via: f, Scope: s, group: grp, Coh: coh}
 		if grp != nil {
 			*grp = append(*grp, t)
 		}
 		m.waiting = append(m.waiting, t)
 	case EBG:
 		g := &[]*Tok{}
-		m.leave(n, s, n.Out, g)
+		m.leave(n, s, n.Out, g, coh)
 	case Throw:
 		m.After[n.ID]++
-		m.leave(n, s, m.trueFlows(n.Out), nil)
+		m.leave(n, s, m.trueFlows(n.Out), nil, coh)
 	case Start:
 		// a start event reached by a flow behaves like a pass-through
-		m.leave(n, s, n.Out, nil)
+		m.leave(n, s, n.Out, nil, coh)
 	default:
 		panic("model: unknown node kind " + string(n.Kind))
 	}
 }
 
-func (m *Model) orFork(n *Node, s *Scope) {
+func (m *Model) orFork(n *Node, s *Scope, coh *Cohort) {
 	var fs []*Flow
 	for _, o := range n.Out {
 		if o == n.Default {
@@ -232,7 +258,13 @@ func (m *Model) orFork(n *Node, s *Scope) {
 		m.Stuck++
 		return
 	}
-	m.leave(n, s, fs, nil)
+	if len(n.Out) == 1 && len(fs) == 1 {
+		// a pure join: the token simply continues in the enclosing activation
+		m.leave(n, s, fs, nil, coh)
+		return
+	}
+	c := &Cohort{parent: coh, live: 1}
+	m.leave(n, s, fs, nil, c)
 }
 
 func (m *Model) removeWaiting(t *Tok) {
@@ -265,7 +297,14 @@ func (m *Model) settle() {
 					m.removeWaiting(x)
 				}
 				s.live -= len(per) - 1
-				m.leave(n, s, n.Out, nil)
+				var coh *Cohort
+				for _, x := range per {
+					coh = x.Coh
+				}
+				if coh != nil {
+					coh.live -= len(per) - 1
+				}
+				m.leave(n, s, n.Out, nil, coh)
 				changed = true
 				break
 			}
@@ -290,8 +329,18 @@ func (m *Model) settle() {
 					m.removeWaiting(x)
 				}
 				s.live -= len(per) - 1
+				var coh *Cohort
+				for _, x := range per {
+					coh = x.Coh
+				}
+				var outer *Cohort
+				if coh != nil {
+					coh.live -= len(per)
+					coh.joined = true
+					outer = coh.parent
+				}
 				m.After[n.ID]++
-				m.orFork(n, s)
+				m.orFork(n, s, outer)
 				changed = true
 				break
 			}
@@ -337,6 +386,21 @@ func (m *Model) positions(s *Scope, except *Node) []*Node {
 func (m *Model) orJoinEnabled(n *Node, s *Scope, have map[*Flow]*Tok) bool {
 	if len(have) == 0 {
 		return false
+	}
+	if m.Late {
+		var coh *Cohort
+		for _, x := range have {
+			coh = x.Coh
+		}
+		if coh != nil {
+			here := 0
+			for _, x := range m.waiting {
+				if x.At == n && x.Scope == s && x.Coh == coh {
+					here++
+				}
+			}
+			return here == coh.live
+		}
 	}
 	// nodes from which an empty incoming flow of n can be reached without passing through n
 	need := map[*Node]bool{}
@@ -393,7 +457,7 @@ func (m *Model) Answer(i int, results map[string]any) {
 			m.Vars[r] = canon(v)
 		}
 	}
-	m.leave(t.At, t.Scope, m.trueFlows(t.At.Out), nil)
+	m.leave(t.At, t.Scope, m.trueFlows(t.At.Out), nil, t.Coh)
 	m.settle()
 }
 
@@ -402,7 +466,7 @@ func (m *Model) Drop(i int) {
 	t := m.Pending[i]
 	m.Pending = append(m.Pending[:i], m.Pending[i+1:]...)
 	if !t.Interrupted {
-		m.consume(t.Scope)
+		m.consume(t.Scope, t.Coh)
 	}
 	m.settle()
 }
@@ -451,12 +515,15 @@ func (m *Model) Deliver(kind, ref string) {
 				if o != t {
 					m.removeWaiting(o)
 					o.Scope.live--
+					if o.Coh != nil {
+						o.Coh.live--
+					}
 				}
 			}
 			*t.group = nil
 		}
 		m.After[t.At.ID]++
-		m.leave(t.At, t.Scope, m.trueFlows(t.At.Out), nil)
+		m.leave(t.At, t.Scope, m.trueFlows(t.At.Out), nil, t.Coh)
 	}
 	// boundary events
 	for _, t := range append([]*Tok{}, m.Pending...) {
@@ -470,11 +537,14 @@ func (m *Model) Deliver(kind, ref string) {
 			m.After[b.ID]++
 			if b.Interrupting {
 				t.Interrupted = true
-				m.leave(b, t.Scope, m.trueFlows(b.Out), nil)
+				m.leave(b, t.Scope, m.trueFlows(b.Out), nil, t.Coh)
 				break
 			}
 			t.Scope.live++
-			m.leave(b, t.Scope, m.trueFlows(b.Out), nil)
+			if t.Coh != nil {
+				t.Coh.live++
+			}
+			m.leave(b, t.Scope, m.trueFlows(b.Out), nil, t.Coh)
 		}
 	}
 	m.settle()
